@@ -97,31 +97,20 @@ theorem enoent_benign_differs_only_on_notExist (plus : Bool) (f : FilesOutcome) 
 generated file (so also the version file), reloaded with the version of the configuration it
 built, and the master runs that version. -/
 theorem batch_ok_implies_files_written_and_version_runs (plus : Bool) (s : H) (b : Batch)
-    (hre : needsReload plus b = true) (hok : (hstep plus s b).2.err = false) :
+    (hre : needsReload plus s.lastErr b = true) (hok : (hstep plus s b).2.err = false) :
     b.files = .ok ∧ (hstep plus s b).2.written = some b.nfiles ∧
     (∀ i, i < b.nfiles → fileOnDisk b.nfiles b.files i = true) ∧
     (b.verIdx < b.nfiles → b.versionFileOnDisk = true) ∧
     (hstep plus s b).2.reloadVersion = some (s.version + 1) ∧
     (hstep plus s b).2.fileErr = none ∧
     Running b.oracle (s.version + 1 : Nat) := by
-  have hct : b.ct ≠ .noChange := by
-    intro h; simp [needsReload, h] at hre
-  have hnp : ¬(plus = true ∧ b.ct = .endpointsOnly) := by
-    rintro ⟨rfl, h⟩; simp [needsReload, h] at hre
+  obtain ⟨hct, ha⟩ := (needsReload_iff plus s.lastErr b).1 hre
   have hA := (hstep_err_false_iff plus s b hct).1 hok
-  simp only [ApplyOk, hnp, if_false] at hA
+  simp only [ApplyOk, ha, Bool.false_eq_true, if_false] at hA
   obtain ⟨hf, hrun, _⟩ := hA
   have hall : ∀ i, i < b.nfiles → fileOnDisk b.nfiles b.files i = true := by
     intro i hi; simp [fileOnDisk, hi, hf]
-  have hunc : (hstep plus s b).2 = updateNginxConf plus b (s.version + 1) := by
-    rw [hstep_change plus s b hct]
-    cases hc : b.ct with
-    | noChange => exact absurd hc hct
-    | clusterState => exact apply_clusterState plus b _ hc
-    | endpointsOnly =>
-      cases plus
-      · exact apply_endpointsOnly_oss b _ hc
-      · exact absurd ⟨rfl, hc⟩ hnp
+  have hunc := hstep_conf plus s b hre
   refine ⟨hf, ?_, hall, fun hv => hall _ hv, ?_, ?_, hrun⟩
   · rw [hunc]; simp [updateNginxConf, hf, filesOnDisk]
   · rw [hunc]; simp [updateNginxConf, applyTx_reload, hf]
@@ -130,24 +119,13 @@ theorem batch_ok_implies_files_written_and_version_runs (plus : Bool) (s : H) (b
 /-- …and a `ReplaceFiles` failure of any class makes the batch fail without a reload, the class being
 visible in the returned error. -/
 theorem batch_files_error_surfaces (plus : Bool) (s : H) (b : Batch) (c : ErrClass) (k : Nat)
-    (hre : needsReload plus b = true) (hf : b.files = .failed c k) :
+    (hre : needsReload plus s.lastErr b = true) (hf : b.files = .failed c k) :
     (hstep plus s b).2.err = true ∧ (hstep plus s b).2.reloadVersion = none ∧
     (hstep plus s b).2.reload = none ∧ (hstep plus s b).2.apiCalled = false ∧
     (hstep plus s b).2.fileErr = some c ∧ (hstep plus s b).2.written = some (min k b.nfiles) ∧
     (hstep plus s b).1.lastErr = true ∧ (hstep plus s b).1.version = s.version + 1 := by
-  have hct : b.ct ≠ .noChange := by
-    intro h; simp [needsReload, h] at hre
-  have hnp : ¬(plus = true ∧ b.ct = .endpointsOnly) := by
-    rintro ⟨rfl, h⟩; simp [needsReload, h] at hre
-  have hunc : (hstep plus s b).2 = updateNginxConf plus b (s.version + 1) := by
-    rw [hstep_change plus s b hct]
-    cases hc : b.ct with
-    | noChange => exact absurd hc hct
-    | clusterState => exact apply_clusterState plus b _ hc
-    | endpointsOnly =>
-      cases plus
-      · exact apply_endpointsOnly_oss b _ hc
-      · exact absurd ⟨rfl, hc⟩ hnp
+  obtain ⟨hct, _⟩ := (needsReload_iff plus s.lastErr b).1 hre
+  have hunc := hstep_conf plus s b hre
   have he : (hstep plus s b).2.err = true := by
     rw [hunc]; simp [updateNginxConf, hf, applyTx_files_failed]
   refine ⟨he, ?_, ?_, ?_, ?_, ?_, ?_, ?_⟩
@@ -172,10 +150,12 @@ example :
 /-- `batch_ok_iff`, one step from ANY state: the remembered result (`h.latestReloadResult.Error == nil`)
 is "ok" after a batch iff the batch needed no apply and the previous result was ok, or its apply
 transaction satisfied `ApplyOk` (all files written ∧ `reload_ok_iff`'s right-hand side for the version
-`s.version + 1` ∧ Plus API; Plus endpoints-only: API alone). -/
+`s.version + 1` ∧ Plus API; Plus endpoints-only WITH the previous result ok: API alone — since
+/repo c94173a a remembered failure sends that arm through files + reload as well). -/
 theorem batch_ok_iff (plus : Bool) (s : H) (b : Batch) :
     (hstep plus s b).1.lastErr = false ↔
-      (b.ct = .noChange ∧ s.lastErr = false) ∨ (b.ct ≠ .noChange ∧ ApplyOk plus b (s.version + 1)) :=
+      (b.ct = .noChange ∧ s.lastErr = false) ∨
+      (b.ct ≠ .noChange ∧ ApplyOk plus s.lastErr b (s.version + 1)) :=
   hstep_lastErr_false_iff plus s b
 
 /-- `batch_ok_iff` for batch `i` of ANY sequence from start-up (arbitrary change types, files
@@ -184,7 +164,7 @@ applies before it — failed ones included. -/
 theorem batch_ok_iff_seq (plus : Bool) (pre : List Batch) (b : Batch) :
     (hrun plus H.init (pre ++ [b])).1.lastErr = false ↔
       (b.ct = .noChange ∧ (hrun plus H.init pre).1.lastErr = false) ∨
-      (b.ct ≠ .noChange ∧ ApplyOk plus b (applies pre + 1)) := by
+      (b.ct ≠ .noChange ∧ ApplyOk plus (hrun plus H.init pre).1.lastErr b (applies pre + 1)) := by
   rw [hrun_snoc_state, batch_ok_iff, run_version]
   simp [H.init]
 
@@ -195,7 +175,7 @@ theorem result_ok_iff_last_apply (plus : Bool) (bs : List Batch) :
     (hrun plus H.init bs).1.lastErr = false ↔
       match lastApply bs with
       | none => True
-      | some (pre, b) => ApplyOk plus b (applies pre + 1) := by
+      | some (pre, b) => ApplyOk plus (hrun plus H.init pre).1.lastErr b (applies pre + 1) := by
   have h := run_lastErr_false_iff plus bs H.init
   cases hl : lastApply bs with
   | none => rw [hl] at h; simpa [H.init] using h
@@ -224,56 +204,79 @@ example :
     (hrun false H.init bs).1.lastErr = true ∧
     (hrun false H.init (bs ++ [⟨.clusterState, 4, 0, .ok, good 2, true⟩])).1.lastErr = false := by decide
 
-/-! ### The explicit exception: NGINX Plus, endpoints-only update after a failed reload
+/-! ### The newest configuration runs (full strength since /repo c94173a)
 
-Known finding `C07:programmed:true-after-failed-reload:stale-after-plus-endpoints-only-update`
-(registered for C07, reproduced by harness/c12 as well).  A Plus endpoints-only batch writes no
-files and does not reload, yet it overwrites `latestReloadResult` with the result of the API call. -/
+Former known finding `C12:stale_after_plus_endpoints_only_update` (= C07's
+`C07:programmed:true-after-failed-reload:stale-after-plus-endpoints-only-update`), FIXED by /repo
+c94173a: the Plus endpoints-only arm took the API path alone whatever was remembered, so a
+successful API call overwrote a failed `latestReloadResult`.  Now it asks
+`h.cfg.plus && h.latestReloadResult.Error == nil`. -/
 
-/-- FULL STATEMENT (false on NGINX Plus): whenever the remembered result is ok, the newest
-configuration that had to be loaded into NGINX (last batch through `updateNginxConf`) was written
-completely and runs. -/
-def NewestConfigRuns (plus : Bool) (bs : List Batch) : Prop :=
-  match lastReload plus bs with
-  | none => True
-  | some (pre, b) => b.files = .ok ∧ Running b.oracle (applies pre + 1 : Nat)
+/-- Whenever the remembered result is ok, the newest configuration that went through `updateNginxConf`
+(batch `b`, no later batch did) was written completely and the master runs its version — the version
+that counts ALL earlier applies.  Full strength: OSS and Plus, every sequence. -/
+theorem newest_config_runs (plus : Bool) (pre post : List Batch) (b : Batch)
+    (hb : (hstep plus (hrun plus H.init pre).1 b).2.generated = true)
+    (hpost : ∀ e ∈ (hrun plus (hrun plus H.init (pre ++ [b])).1 post).2, e.generated = false)
+    (hok : (hrun plus H.init (pre ++ b :: post)).1.lastErr = false) :
+    b.files = .ok ∧ Running b.oracle (applies pre + 1 : Nat) := by
+  rw [show pre ++ b :: post = (pre ++ [b]) ++ post by simp, hrun_append] at hok
+  simp only at hok
+  have h1 : (hrun plus H.init (pre ++ [b])).1.lastErr = false := by
+    cases h : (hrun plus H.init (pre ++ [b])).1.lastErr with
+    | false => rfl
+    | true => rw [run_lastErr_stays plus post _ h hpost] at hok; cases hok
+  rw [hrun_snoc_state] at h1
+  have := hstep_generated_ok plus _ b hb h1
+  rwa [run_version, show H.init.version = 0 from rfl, Nat.zero_add] at this
 
-/-- witness of the exception: ClusterStateChange whose `ReplaceFiles` fails (version 1 never loaded),
-then EndpointsOnlyChange whose Plus API call succeeds: the remembered result is ok, the issued
-Gateway conditions keep `Programmed=True`, the pod is ready — NGINX never loaded version 1. -/
+/-- the hypothesis in the older shape: `b` needed a reload and only idle batches followed -/
+theorem newest_config_runs_idle (plus : Bool) (pre post : List Batch) (b : Batch)
+    (hb : needsReload plus (hrun plus H.init pre).1.lastErr b = true)
+    (hpost : ∀ b' ∈ post, b'.ct = .noChange)
+    (hok : (hrun plus H.init (pre ++ b :: post)).1.lastErr = false) :
+    b.files = .ok ∧ Running b.oracle (applies pre + 1 : Nat) := by
+  apply newest_config_runs plus pre post b ?_ ?_ hok
+  · rw [hstep_conf plus _ b hb]; rfl
+  · intro e he
+    rw [(run_noChange_keeps plus post _ hpost).2.2 e he]; rfl
+
+/-- hypotheses satisfiable on Plus: failed ClusterStateChange, then an EndpointsOnlyChange — which now
+goes through files + reload (version 2) —, then an idle batch -/
+example :
+    let o (n : Int) : Oracle := ⟨[.present], 5, .pid 7, .content 1, true, [.content 2], [.ver n], 5⟩
+    let pre : List Batch := [⟨.clusterState, 4, 1, .failed .permission 2, o 1, true⟩]
+    let b : Batch := ⟨.endpointsOnly, 4, 0, .ok, o 2, true⟩
+    let post : List Batch := [⟨.noChange, 0, 0, .ok, o 0, true⟩]
+    (hstep true (hrun true H.init pre).1 b).2.generated = true ∧
+    (hstep true (hrun true H.init pre).1 b).2.reloadVersion = some 2 ∧
+    ((hrun true (hrun true H.init (pre ++ [b])).1 post).2.map (·.generated)) = [false] ∧
+    (hrun true H.init (pre ++ b :: post)).1.lastErr = false := by decide
+
+/-- PRE-FIX witness (regression detector; `hrunPreFix` is NOT the code): ClusterStateChange whose
+`ReplaceFiles` fails (version 1 never loaded), then EndpointsOnlyChange whose Plus API call succeeds:
+under the old arm the remembered result is ok, the issued Gateway conditions keep `Programmed=True`,
+the pod is ready and nothing was ever reloaded.  The repaired model on the same input: the second
+batch goes through `updateNginxConf` and reloads with version 2. -/
 theorem plus_endpoints_only_resets_failed_reload :
     let o : Oracle := ⟨[.present], 5, .pid 7, .content 1, true, [.content 2], [.ver 1], 5⟩
     let bs : List Batch := [⟨.clusterState, 4, 1, .failed .permission 2, o, true⟩,
                             ⟨.endpointsOnly, 0, 0, .ok, o, true⟩]
-    (hrun true H.init bs).1.lastErr = false ∧ (hrun true H.init bs).1.ready = true ∧
-    ((hrun true H.init bs).2.map (·.reloadVersion)) = [none, none] ∧
-    issued (hrun true H.init bs).1 .gateway [⟨"Programmed", "True", "Programmed"⟩] =
+    (hrunPreFix true H.init bs).1.lastErr = false ∧ (hrunPreFix true H.init bs).1.ready = true ∧
+    ((hrunPreFix true H.init bs).2.map (·.reloadVersion)) = [none, none] ∧
+    issued (hrunPreFix true H.init bs).1 .gateway [⟨"Programmed", "True", "Programmed"⟩] =
       [⟨"Programmed", "True", "Programmed"⟩] ∧
-    ¬ NewestConfigRuns true bs := by
-  refine ⟨by decide, by decide, by decide, by decide, ?_⟩
-  intro h
-  simp [NewestConfigRuns, lastReload, needsReload] at h
+    ((hrun true H.init bs).2.map (·.reloadVersion)) = [none, some 2] ∧
+    (hrun true H.init bs).1.lastErr = true := by
+  decide
 
-/-- `_partial`: excluding exactly that region — no batch after the last one that went through
-`updateNginxConf` builds a configuration (on OSS that is no restriction beyond "last", see
-`newest_config_runs_oss`) — a remembered "ok" means the newest configuration was written completely
-and runs, with the version that counts ALL earlier applies. -/
-theorem newest_config_runs_partial (plus : Bool) (pre post : List Batch) (b : Batch)
-    (hb : needsReload plus b = true) (hpost : ∀ b' ∈ post, b'.ct = .noChange)
-    (hok : (hrun plus H.init (pre ++ b :: post)).1.lastErr = false) :
-    b.files = .ok ∧ Running b.oracle (applies pre + 1 : Nat) := by
-  have hct : b.ct ≠ .noChange := by
-    intro h; simp [needsReload, h] at hb
-  have hnp : ¬(plus = true ∧ b.ct = .endpointsOnly) := by
-    rintro ⟨rfl, h⟩; simp [needsReload, h] at hb
-  rw [show pre ++ b :: post = (pre ++ [b]) ++ post by simp, hrun_append] at hok
-  simp only at hok
-  rw [(run_noChange_keeps plus post _ hpost).1] at hok
-  have h := (batch_ok_iff_seq plus pre b).1 hok
-  rcases h with ⟨h, _⟩ | ⟨_, h⟩
-  · exact absurd h hct
-  · simp only [ApplyOk, hnp, if_false] at h
-    exact ⟨h.1, h.2.1⟩
+/-- the pre-fix variant differs from the code only on Plus endpoints-only batches that follow a
+remembered failure -/
+theorem prefix_variant_differs_only_after_failure (plus : Bool) (s : H) (b : Batch)
+    (h : ¬(plus = true ∧ s.lastErr = true ∧ b.ct = .endpointsOnly)) :
+    hstepPreFix plus s b = hstep plus s b := by
+  cases hp : plus <;> cases hl : s.lastErr <;> cases hc : b.ct <;>
+    simp_all [hstepPreFix, hstep, applyPreFix, apply]
 
 /-- OSS: full strength — every batch that builds a configuration goes through `updateNginxConf`. -/
 theorem newest_config_runs_oss (bs : List Batch) (hok : (hrun false H.init bs).1.lastErr = false) :
@@ -286,7 +289,7 @@ theorem newest_config_runs_oss (bs : List Batch) (hok : (hrun false H.init bs).1
   | some px =>
     obtain ⟨pre, b⟩ := px
     rw [hl] at h
-    simp only [ApplyOk, Bool.false_eq_true, false_and, if_false] at h
+    simp only [ApplyOk, apiOnly, Bool.false_and, Bool.false_eq_true, if_false] at h
     exact ⟨h.1, h.2.1⟩
 
 /-! ### Versions -/
@@ -297,24 +300,14 @@ theorem version_counts_all_applies (plus : Bool) (pre post : List Batch) (b : Ba
     (hct : b.ct ≠ .noChange) :
     (hrun plus H.init (pre ++ b :: post)).1.version = applies pre + 1 + applies post ∧
     (hstep plus (hrun plus H.init pre).1 b).2.cfgVersion = some (applies pre + 1) ∧
-    (needsReload plus b = true → b.files = .ok →
+    (needsReload plus (hrun plus H.init pre).1.lastErr b = true → b.files = .ok →
       (hstep plus (hrun plus H.init pre).1 b).2.reloadVersion = some (applies pre + 1)) := by
   refine ⟨?_, ?_, ?_⟩
   · rw [run_version, applies_append]; simp [applies, hct, H.init]; omega
   · rw [hstep_cfgVersion, run_version]; simp [hct, H.init]
   · intro hre hf
-    have hnp : ¬(plus = true ∧ b.ct = .endpointsOnly) := by
-      rintro ⟨rfl, h⟩; simp [needsReload, h] at hre
-    rw [hstep_change plus _ b hct, run_version]
-    simp only [H.init, Nat.zero_add]
-    cases hc : b.ct with
-    | noChange => exact absurd hc hct
-    | clusterState =>
-      rw [apply_clusterState plus b _ hc]; simp [updateNginxConf, applyTx_reload, hf]
-    | endpointsOnly =>
-      cases plus
-      · rw [apply_endpointsOnly_oss b _ hc]; simp [updateNginxConf, applyTx_reload, hf]
-      · exact absurd ⟨rfl, hc⟩ hnp
+    rw [hstep_conf plus _ b hre, run_version]
+    simp [updateNginxConf, applyTx_reload, hf, H.init]
 
 /-- strictly increasing across a failed apply: the next apply gets a NEW number -/
 theorem version_after_failed_apply (plus : Bool) (pre mid : List Batch) (b1 b2 : Batch)
@@ -340,7 +333,7 @@ the pod is ready iff the very first batch needed no change, or SOME batch's appl
 theorem ready_iff (plus : Bool) (bs : List Batch) :
     (hrun plus H.init bs).1.ready = true ↔
       (∃ b rest, bs = b :: rest ∧ b.ct = .noChange) ∨
-      (∃ pre b post, bs = pre ++ b :: post ∧ b.ct ≠ .noChange ∧ ApplyOk plus b (applies pre + 1)) := by
+      (∃ pre b post, bs = pre ++ b :: post ∧ b.ct ≠ .noChange ∧ ApplyOk plus (hrun plus H.init pre).1.lastErr b (applies pre + 1)) := by
   cases bs with
   | nil => simp [hrun_nil, H.init]
   | cons b rest =>
@@ -358,7 +351,7 @@ theorem ready_iff (plus : Bool) (bs : List Batch) :
       constructor
       · rintro (he | ⟨pre, x, post, hbs, hx, hok⟩)
         · refine Or.inr ⟨[], b, rest, rfl, hct, ?_⟩
-          simpa [applies, H.init] using (hstep_err_false_iff plus H.init b hct).1 he
+          simpa [applies, H.init, hrun_nil] using (hstep_err_false_iff plus H.init b hct).1 he
         · refine Or.inr ⟨b :: pre, x, post, by simp [hbs], hx, ?_⟩
           have := hone pre
           simp only [H.init] at this
@@ -372,7 +365,7 @@ theorem ready_iff (plus : Bool) (bs : List Batch) :
             simp only [List.nil_append, List.cons.injEq] at hbs
             obtain ⟨rfl, rfl⟩ := hbs
             left
-            exact (hstep_err_false_iff plus H.init b hct).2 (by simpa [applies, H.init] using hok)
+            exact (hstep_err_false_iff plus H.init b hct).2 (by simpa [applies, H.init, hrun_nil] using hok)
           | cons p pre =>
             simp only [List.cons_append, List.cons.injEq] at hbs
             obtain ⟨rfl, rfl⟩ := hbs
@@ -398,7 +391,7 @@ theorem ready_means_files_written_and_running (b : Batch) (rest : List Batch) (h
   · simp only [List.cons.injEq] at hbs
     obtain ⟨rfl, _⟩ := hbs
     exact absurd hn hct
-  · simp only [ApplyOk, Bool.false_eq_true, false_and, if_false] at hok
+  · simp only [ApplyOk, apiOnly, Bool.false_and, Bool.false_eq_true, if_false] at hok
     exact ⟨pre, x, post, hbs, hok.1, hok.2.1⟩
 
 /-- first apply fails (EIO after two files): idle batches do not make the pod ready, a good apply does -/
@@ -418,7 +411,7 @@ remembered result, and for EVERY target and EVERY list of conditions collected b
 conditions report exactly the failure condition for its type (`Programmed=False/Invalid`,
 `Accepted=False/GatewayNotProgrammed`) and leave the other types as they would have been. -/
 theorem failure_surfaces_composed (plus : Bool) (pre : List Batch) (b : Batch) (t : Target)
-    (cs : List Cond) (hct : b.ct ≠ .noChange) (hfail : ¬ ApplyOk plus b (applies pre + 1)) :
+    (cs : List Cond) (hct : b.ct ≠ .noChange) (hfail : ¬ ApplyOk plus (hrun plus H.init pre).1.lastErr b (applies pre + 1)) :
     (hstep plus (hrun plus H.init pre).1 b).2.statusUpdated = true ∧
     (hrun plus H.init (pre ++ [b])).1.lastErr = true ∧
     lookup (failureCond t).type (issued (hrun plus H.init (pre ++ [b])).1 t cs) = some (failureCond t) ∧
@@ -446,7 +439,7 @@ theorem failure_surfaces_composed (plus : Bool) (pre : List Batch) (b : Batch) (
 
 /-- conversely a batch whose transaction satisfied `ApplyOk` adds no failure condition -/
 theorem success_issues_plain_conditions (plus : Bool) (pre : List Batch) (b : Batch) (t : Target)
-    (cs : List Cond) (hct : b.ct ≠ .noChange) (hok : ApplyOk plus b (applies pre + 1)) :
+    (cs : List Cond) (hct : b.ct ≠ .noChange) (hok : ApplyOk plus (hrun plus H.init pre).1.lastErr b (applies pre + 1)) :
     issued (hrun plus H.init (pre ++ [b])).1 t cs = dedup cs := by
   have hl := (batch_ok_iff_seq plus pre b).2 (Or.inr ⟨hct, hok⟩)
   simp [issued, fold, hl]
@@ -454,7 +447,7 @@ theorem success_issues_plain_conditions (plus : Bool) (pre : List Batch) (b : Ba
 /-- the stored failure outlives any number of idle batches (other status writers, e.g. the Gateway
 Service upsert, keep reporting it) -/
 theorem failure_persists_through_idle (plus : Bool) (pre idle : List Batch) (b : Batch) (t : Target)
-    (cs : List Cond) (hct : b.ct ≠ .noChange) (hfail : ¬ ApplyOk plus b (applies pre + 1))
+    (cs : List Cond) (hct : b.ct ≠ .noChange) (hfail : ¬ ApplyOk plus (hrun plus H.init pre).1.lastErr b (applies pre + 1))
     (hidle : ∀ x ∈ idle, x.ct = .noChange) :
     lookup (failureCond t).type (issued (hrun plus H.init (pre ++ [b] ++ idle)).1 t cs) =
       some (failureCond t) := by
